@@ -58,9 +58,11 @@ PROPS = {
             "with the ES legacy Canonicalize computed from std's Unicode tables for every char; the i+u word "
             "characters; fold_equals/backref_icase for every canonicalisation function (uninterpreted). "
             "UNCHECKED: the content of the simple-case-folding table vs Unicode 17 (no independent source here)."),
-    "C11": ("other", "Tables with an in-sandbox oracle (std's Unicode data) are compared for every char; every interval "
-            "table is checked sorted/disjoint/non-abutting. All other tables (Script, Script_Extensions, most "
-            "binary properties, strings) have no oracle here and are unchecked."),
+    "C11": ("other", "ONLY the tables with an in-sandbox oracle are covered: White_Space and gc=Cc against std's Unicode 17 "
+            "data for every char, ASCII / Any / ASCII_Hex_Digit against their definitions, and 6 tables checked "
+            "sorted/disjoint/non-abutting. That is 5 of ~300 tables: Script, Script_Extensions, General_Category "
+            "values other than Cc, almost all binary properties, properties of strings, alias wiring and rejection "
+            "of unknown names are NOT checked (no independent Unicode 17 source exists in the sandbox)."),
     "C12": ("other", "CodePointSet algebra against a set-of-code-points view: inverted/intersect unbounded (Verus, on the "
             "mechanically extracted real functions), add/add_one/remove/contains on vectors of concrete length with "
             "symbolic contents (Kani), bracket matching = membership XOR invert. Class-set parsing beyond bounded "
@@ -69,8 +71,10 @@ PROPS = {
             "ASCII buffers; the ASCII-input interpreter agrees with the UTF-8 one per instruction kind; u32->u8 "
             "narrowing never aborts a loop (min==0 never fails). Equality of whole searches then follows by "
             "parametricity of the shared generic interpreter (argued, not checked)."),
-    "C14": ("other", "Surrogate pairing fwd/bwd for every (u16,u16), agreement with char::decode_utf16, no panic on "
-            "arbitrary units (feature utf16). Whole-search agreement is not decided."),
+    "C14": ("other", "Decoder level only (feature utf16): Utf16Input pairs exactly (high, low) surrogates forward and "
+            "backward for every (u16,u16) and every position, agrees with std's encode_utf16 on every char, Ucs2Input "
+            "never pairs, no panic and no out-of-range position on arbitrary units. Whole-search agreement with the "
+            "UTF-8 entry points (offset translation, emit_code_point_sequence under utf16) is NOT decided."),
     "C15": ("other", "Each cfg!(prohibit-unsafe)/index-positions twin satisfies the same contract as the default build "
             "(decoders, iat/mat, ByteBitmap::find_in, try_backtrack). hashbrown vs std HashMap assumed."),
     "C16": ("other", "Accessor identities for every Match with <= 3 groups over a small name alphabet; successful_match "
